@@ -548,20 +548,20 @@ def _replay(darr, np_, ob, fx, tmp):
 # ---- obligations --------------------------------------------------------------------------------------
 def obligations(tier):
     thorough = tier == 'thorough'
-    F = 4 if thorough else 2
-    T = 900 if thorough else 150
+    F = 3 if thorough else 2
+    T = 1200 if thorough else 150
     obs = []
     if thorough:
-        cfgs = [(nt, bo, at) for nt in NUMTYPES for bo in ('little', 'big')
-                for at in [(), (2,), (2, 3)]][::1]
-        cfgs = [c for i, c in enumerate(cfgs) if c[2] == () or i % 3 == 0 or c[0] in ('int32', 'float64')]
+        # every type once per byte order, atoms rotated; sized so that the tier finishes in ~20 min on 16 cores
+        cfgs = [(nt, bo, [(), (2,), (2, 3), (1,)][(i + j) % 4]) for i, nt in enumerate(NUMTYPES)
+                for j, bo in enumerate(('little', 'big'))]
     else:
         cfgs = [('int32', 'little', ()), ('float64', 'big', (2,)), ('uint8', 'little', (1,)),
                 ('complex64', 'big', (2, 3)), ('float16', 'little', ())]
     formsets = [('same', 'cast'), ('list', 'otherbo'), ('cast', 'same')]
     obs.append(Ob('S-iterappend', 'h_iterappend',
                   splits=[dict(numtype=nt, bo=bo, atom=at, forms=fs, F=F)
-                          for (nt, bo, at) in cfgs for fs in (formsets if thorough else formsets[:2])],
+                          for ci, (nt, bo, at) in enumerate(cfgs) for fs in ((formsets[ci % 3],) if thorough else formsets[:2])],
                   timeout=T, regions=('empty_start_no_chunks',), replay='replay_generic',
                   sym='n, m, k1..kF, probe : int',
                   bounds=f'0<=n<=2^62, 0<=m<=F={F} chunks per call, 0<=k_i<=2^62 (rows unbounded); '
